@@ -425,7 +425,7 @@ func parseClause(c *Contract, text, loc string) error {
 			fmt.Sscanf(callee[i+1:], "%d", &ord)
 			callee = callee[:i]
 		}
-		rest := strings.TrimSpace(text[strings.Index(text, fields[1])+len(fields[1]):])
+		rest := strings.TrimSpace(strings.TrimPrefix(strings.TrimSpace(strings.TrimPrefix(strings.TrimSpace(text), "call")), fields[1]))
 		isAfter := false
 		if strings.HasPrefix(rest, "after ") {
 			// `call f after assert[l] e`: checked right after the call returns (its results are __lastret(f, i))
